@@ -7,9 +7,13 @@ B=../build/refselftest; mkdir -p $B
 python3 gen_box_table.py
 gcc -O2 -o $B/st_stream ref_stream.c ref_stream_selftest.c && $B/st_stream
 gcc -O2 -o $B/st_hash ref_hash.c ref_hash_selftest.c && $B/st_hash
-if [ -f ref_argon2_selftest.c ] && [ -f .argon2_ready ]; then gcc -O2 -o $B/st_argon2 ref_argon2.c ref_argon2_selftest.c -lcrypto && $B/st_argon2; fi
+if [ -d /root/miniconda/include/openssl ]; then   # OpenSSL >= 3.2 (Argon2 KDF) as a second opinion; the system libcrypto 3.0 has none
+  gcc -O2 -I/root/miniconda/include -o $B/st_argon2 ref_argon2.c ref_argon2_selftest.c -L/root/miniconda/lib -Wl,-rpath,/root/miniconda/lib -lcrypto && REF_ARGON2_QUICK=${REF_ARGON2_QUICK-1} $B/st_argon2
+else
+  gcc -O2 -o $B/st_argon2 ref_argon2.c ref_argon2_selftest.c -lcrypto && { $B/st_argon2 || [ $? = 2 ]; }   # rc 2 = RFC vectors OK, OpenSSL grid unavailable
+fi
 if [ -f ec25519.py ]; then python3 ec25519.py; fi
-if [ -f pwhash_str.py ] && [ -f .argon2_ready ]; then python3 pwhash_str.py; fi
+python3 pwhash_str.py
 if [ "${VERIF_XCHECK:-0}" = "1" ]; then
   gcc -O2 -o $B/xc_stream ref_stream.c ref_stream_xcheck.c -lcrypto && $B/xc_stream
   gcc -O2 -o $B/xc_hash ref_hash.c ref_hash_xcheck.c -lcrypto && $B/xc_hash
